@@ -1,8 +1,9 @@
 from common import *
 from rpcommon import *
 ID = 'C08'
-TRANSLATORS = []
-COQ_TARGETS = ['Properties_C08.vo']
+TRANSLATORS = [('consts2coq.py', ['coq/Gen/Consts.v'])]
+GEN_FILES = ['coq/Gen/Consts.v']
+COQ_TARGETS = ['Properties_C08.vo', 'Proof/ConstsRegp.vo']
 HARNESS_MODS = ['rp']
 RULE = ('cases: rp.emit serial mem16 seq kind ftype fseq addr n val payload (kind: 0/1 read request 8/16 bit, 2/3 write request 8/16 bit, 4 acknowledge, '
         '10+code error response, 30 meta; obs: return code, next sequence number, wire octets, then what the library\'s own receiver on the same transport '
